@@ -108,7 +108,7 @@ fn check(case: &LedgerCase, obs: &mut Obs) -> Verdict {
         let w = match crate::observe::run_csv_writer(&files, &opts, true, true) { Ok(t) => t, Err(RunErr::Panic(p)) => return classify_panic(&p, csv), Err(_) => return Verdict::Fail("csv-writer run failed".into()) };
         let mut firsts: BTreeMap<String, usize> = BTreeMap::new();
         let mut rdr = csv::ReaderBuilder::new().has_headers(false).flexible(true).from_reader(w.out.as_bytes());
-        for rec in rdr.records().flatten() { if rec.iter().skip(1).all(|c| c.is_empty()) { if let Some(f) = rec.get(0) { *firsts.entry(f.to_string()).or_insert(0) += 1; } } }
+        for rec in rdr.records().flatten() { for c in rec.iter() { if !c.is_empty() { *firsts.entry(c.to_string()).or_insert(0) += 1; } } }
         let mut want: BTreeMap<String, usize> = BTreeMap::new();
         for n in total.notes.iter().chain(yearly.notes.iter()) { *want.entry(n.clone()).or_insert(0) += 1; }
         for (n, k) in &want { let got = firsts.get(n).copied().unwrap_or(0); if got < *k { return Verdict::Fail(format!("CSV output lists the note {n:?} {got} time(s); the costs tables have it {k} times (one per ignored transaction)\n{csv}")); } }
